@@ -12,12 +12,13 @@ import z3
 
 from pyvc import ext_C01
 from pyvc import models as M
+from pyvc import strmodel as STR
 from pyvc.engine import ProgExc, Unsupported
 from pyvc.models import FmtPiece, SymStr
 from pyvc.spec import Registry
 from pyvc.values import Callback, Iter, NArr, Opaque, PList, SArr, Sym, fresh_name, kind_of, to_z3, zint
 
-DEPENDS = ["C18"]  # reset_index_ (ids/pids re-based on the first root, roots stay -1, attributes untouched)
+DEPENDS = ["C18", "C02"]  # reset_index_ (ids/pids re-based on the first root, roots stay -1, attributes untouched)
 
 IO = "swcgeom/core/swc_utils/io.py"
 SWC = "swcgeom/core/swc.py"
@@ -293,9 +294,32 @@ def register(R: Registry):
         # used modularly (SWCLike.to_swc): the result is an abstract line sequence about which nothing is assumed
         return isinstance(v.get("result"), Opaque)
 
+    COMMENT_LINE = "one-newline-terminated-hash-line-carrying-the-comment-minus-its-leading-blanks"
+
+    def any_comments(v):
+        """second registration: the comment list has symbolic length and abstract strings in it"""
+        return isinstance(v.get("given_comments"), PList)
+
+    def comment_yield(E, v, new, k):
+        """iteration k of the comment loop yields exactly one text: '# ' + comment k minus its leading blanks + newline
+        (a blank comment - whitespace only or empty - may also be written as a bare '#' line)"""
+        if len(new) != 1 or not any_comments(v):
+            return False
+        z = v["given_comments"].get(k).z
+        text = STR.as_id(E, new[0])
+        full = STR.as_id(E, SymStr(["# ", STR.AbsStr(STR.apply(E, z, "lstrip", [], "str")), "\n"]))
+        blank = z3.Or(STR.apply(E, z, "isspace", [], "bool"), z == 0)
+        return z3.Or(text == full, z3.And(blank, text == STR.lit(E, "#\n")))
+
     def post_comments(E, v, o):
         if at_call_site(v):
             return True
+        if any_comments(v):
+            from pyvc.loops import LoopYields
+
+            items = out_items(v)
+            return (items is not None and len(items) >= 1 and isinstance(items[0], LoopYields) and items[0].ordinal == 0 and items[0].labels == [COMMENT_LINE]
+                    and zint(items[0].count) == zint(v["given_comments"].n))
         items, cs = out_items(v), list(v["given_comments"] or [])
         if items is None or len(items) < len(cs):
             return False
@@ -304,6 +328,9 @@ def register(R: Registry):
     def post_header(E, v, o):
         if at_call_site(v):
             return True
+        if any_comments(v):
+            items = out_items(v)
+            return items is not None and len(items) >= 2 and items[1] == "# " + " ".join(col_order(v)) + "\n"
         items, cs = out_items(v), list(v["given_comments"] or [])
         if items is None or len(items) <= len(cs):
             return False
@@ -314,7 +341,10 @@ def register(R: Registry):
 
         if at_call_site(v):
             return True
-        items, cs = out_items(v), list(v["given_comments"] or [])
+        if any_comments(v):
+            items, cs = out_items(v), [None]  # one block for all comment lines
+        else:
+            items, cs = out_items(v), list(v["given_comments"] or [])
         if items is None or len(items) != len(cs) + 2:
             return False  # nothing but the comments, the header and the node rows
         blk = items[-1]
@@ -359,18 +389,54 @@ def register(R: Registry):
               "comments are concrete small lists (variants) because str methods run natively on concrete strings",
     )
 
+    # second registration of to_swc: ANY number of ARBITRARY comments (a list of abstract strings of symbolic length, pyvc/strmodel.py);
+    # the comment loop is cut like the node loop, with a per-iteration description of the line it yields
+    def swc_setup_any(extra):
+        inner = swc_setup(None, extra)
+
+        def f(S):
+            d = inner(S)
+            cm = STR.str_list("comments")
+            S.assume(cm.n >= 0)
+            cm.frozen = True
+            d["comments"] = d["given_comments"] = cm
+            return d
+
+        return f
+
+    R.add(
+        f"{IO}:to_swc",
+        prop="C01",
+        variants={"any-number-of-arbitrary-comments": swc_setup_any(None), "any-number-of-arbitrary-comments+one-extra-column": swc_setup_any(["e"])},
+        requires=[("ids-are-positions", ids_are_positions), "offset-non-negative :: id_offset >= 0"],
+        returns=lines_result,
+        ensures=[
+            ("one-newline-terminated-hash-line-per-comment", post_comments),
+            ("column-header-line-follows-the-comments", post_header),
+            ("then-exactly-one-row-per-node-and-nothing-else", post_rows),
+        ],
+        loops={0: dict(invariant=[], yields=[(COMMENT_LINE, comment_yield)]),
+               1: dict(invariant=[], yields=[("one-line-per-node-with-the-cells-in-column-order", row_yield)])},
+        notes="as above, with a comment list of symbolic length holding abstract strings: `c.isspace()` / `c.lstrip()` are uninterpreted in the comment",
+    )
+
     # --------------------------------------------------------- SWCLike.to_swc
     from contracts.common import col, sym_tree
 
-    def like_setup(source, own_source, comments, fname, extra):
+    def like_setup(source, own_source, comments, fname, extra, how_many="two"):
         def f(S):
             t = sym_tree(S, "t", frozen=True)
             t.fields["source"] = own_source
-            c0, c1 = S.opaque({}, "comment0"), S.opaque({}, "comment1")  # two arbitrary (abstract) comment strings
-            t.fields["comments"] = PList([c0, c1])
+            if how_many == "two":
+                c0, c1 = STR.fresh_str("comment0"), STR.fresh_str("comment1")  # two arbitrary (abstract) comment strings
+                t.fields["comments"] = PList([c0, c1])
+                own = [c0, c1]
+            else:  # any number of arbitrary comment strings
+                own = t.fields["comments"] = STR.str_list("comments")
+                S.assume(own.n >= 0)
             t.fields["comments"].frozen = True
             return dict(self=t, fname=fname, extra_cols=PList(list(extra)) if extra is not None else None, source=source,
-                        comments=comments, id_offset=S.int("id_offset"), own_comments=[c0, c1])
+                        comments=comments, id_offset=S.int("id_offset"), own_comments=own)
 
         return f
 
@@ -394,14 +460,27 @@ def register(R: Registry):
 
     def like_header(E, v, o):
         a = the_call(E)
-        if a is None or not isinstance(a["comments"], PList) or a["comments"].items is None:
+        if a is None or not isinstance(a["comments"], PList):
             return False
         src, own = o["source"], o["self"].fields["source"]
         exp = []
         if src is not False:
             exp += ["source: " + (src if isinstance(src, str) else (own if own else "Unknown")), ""]
+        mine = v["own_comments"]
+        if isinstance(mine, PList):  # any number of comments: header entries by position, then entry h+i is the tree's comment i, and no more
+            got = a["comments"]
+            if o["comments"] is not True:
+                return got.items is not None and len(got.items) == len(exp) and all(g == e for g, e in zip(got.items, exp))
+            if got.items is not None or got.tup or got.kinds != ["ref"]:
+                return False
+            h, i = len(exp), z3.Int(fresh_name("i"))
+            head = [z3.Select(got.cols[0], j) == STR.as_id(E, e) for j, e in enumerate(exp)]
+            return z3.And(zint(got.n) == h + zint(mine.n), *head,
+                          z3.ForAll([i], z3.Implies(z3.And(i >= 0, i < zint(mine.n)), z3.Select(got.cols[0], h + i) == z3.Select(mine.cols[0], i))))
         if o["comments"] is True:
-            exp += list(v["own_comments"])
+            exp += list(mine)
+        if a["comments"].items is None:
+            return False
         got = a["comments"].items
         return len(got) == len(exp) and all((g == e) if isinstance(e, str) else (g is e) for g, e in zip(got, exp))
 
@@ -427,7 +506,12 @@ def register(R: Registry):
                 and len(f["written"]) == 1 and f["written"][0] is lines[0])
 
     def like_input_kept(E, v, o):
-        cs = v["self"].fields["comments"]
+        cs, was = v["self"].fields["comments"], o["self"].fields["comments"]
+        if was.items is None:  # any number of comments: same length, same entries
+            if cs.items is not None:
+                return False
+            i = z3.Int(fresh_name("i"))
+            return z3.And(zint(cs.n) == zint(was.n), z3.ForAll([i], z3.Implies(z3.And(i >= 0, i < zint(was.n)), z3.Select(cs.cols[0], i) == z3.Select(was.cols[0], i))))
         return cs.items is not None and len(cs.items) == 2 and all(a is b for a, b in zip(cs.items, v["own_comments"]))
 
     R.add(
@@ -440,6 +524,11 @@ def register(R: Registry):
             "text,no-source,comments,extra-columns": like_setup(False, "a.swc", True, None, ["e"]),
             "text,no-source,no-comments": like_setup(False, "", False, None, None),
             "file,source-from-tree,comments": like_setup(True, "a.swc", True, "out.swc", None),
+            "text,source-from-tree,any-number-of-comments": like_setup(True, "a.swc", True, None, None, "any"),
+            "text,given-source,any-number-of-comments": like_setup("lab", "", True, None, None, "any"),
+            "text,no-source,any-number-of-comments,extra-columns": like_setup(False, "a.swc", True, None, ["e"], "any"),
+            "file,unknown-source,any-number-of-comments": like_setup(True, "", True, "out.swc", None, "any"),
+            "text,source-from-tree,any-number-of-comments-not-written": like_setup(True, "a.swc", False, None, None, "any"),
         },
         requires=[("ids-are-positions", tree_ids_are_positions), "offset-non-negative :: id_offset >= 0"],
         ensures=[
@@ -449,7 +538,8 @@ def register(R: Registry):
             ("output-is-exactly-the-writer's-lines", like_text),
             ("tree's-comment-list-not-modified", like_input_kept),
         ],
-        notes="tree size/content and offset symbolic; the tree's comments are two abstract strings; option combinations as variants",
+        notes="tree size/content and offset symbolic; the tree's comments are two abstract strings, or a list of abstract strings of symbolic "
+              "length (pyvc/strmodel.py); option combinations as variants",
     )
 
 
@@ -482,13 +572,26 @@ STR_OF_INT = z3.Function("text_of_str(int)", z3.IntSort(), z3.IntSort())
 FMT4 = z3.Function("text_of_format(real,'.4f')", z3.RealSort(), z3.IntSort())
 ROUND4 = z3.Function("round4", z3.RealSort(), z3.RealSort())
 WROW = z3.Function("written_row_line", z3.IntSort(), z3.IntSort())
+WCOM = z3.Function("written_comment_line", z3.IntSort(), z3.IntSort())
 
 LEMMA_ASSUMPTIONS = [
     "round-trip lemma, assumed (CPython number formatting): float_of_text(fmt4(v)) = round4(v) and the conversion succeeds, for every real v "
     "(round4 uninterpreted: 'v rounded to the four decimals the format carries'); int_of_text(str(k)) = k and succeeds, for every integer k",
     "round-trip lemma, assumed (whitespace token lemma, DESIGN 3/C01): group c of the row pattern on a written row line is the text of its c-th cell",
-    "round-trip lemma, assumed (row structure of the written text): the row lines of the text to_swc yields are exactly its n node lines, in node "
-    "order - the '#' lines (comments, column header) are no rows (regex-language fact plus a counting induction; exercised by the bounded stand-in)",
+    "round-trip lemma, assumed (io: what is written is what is read): the lines a reader gets from the written text / file are the texts to_swc yielded, one line "
+    "per yielded text, in order, and every one decodes (each yielded text ends with its only line break: C01/lemma/comments/text/a-written-comment-line-ends-"
+    "with-its-only-line-break for comments WITHOUT line-break characters, the column languages for rows); utf-8 written is utf-8 read",
+    "round-trip lemma, assumed (reading of the abstract string vocabulary): re_hit / re_group / strlen / drop_prefix / removesuffix / startswith / str.lstrip / "
+    "is_blank on string ids are CPython's functions of the texts; under this reading the lemma's hypotheses `node lines are rows`, `'#' lines are comments and no "
+    "rows`, `the kept text of a written comment line, leading blanks aside, is the comment, leading blanks aside`, `the column-header line is dropped` ARE the "
+    "discharged obligations C01/regex/written-row-line-is-a-row, C01/regex/written-comment-line-is-a-comment-and-no-row, C01/lemma/comments/text/* (types "
+    "non-negative: a negative type is written as '-3', which the row pattern of the reader does not accept)",
+    "round-trip lemma, hypothesis that is NOT discharged (known finding): every written comment line is kept by the reader - false for a comment that starts "
+    "like the column header (C01/lemma/comments/text/every-written-comment-is-kept-by-the-reader fails with the text 'id type x y z r pid'); the comment part "
+    "of the composition is proved UNDER this hypothesis",
+    "assumed-lemma: counting lemma (lean/Count.lean: count_skips, count_counts): a counter defined by c(k+1) = c(k) + [p(k)] does not move over a block of lines "
+    "none of which satisfies p and counts one by one over a block all of which satisfy p.  Instance: the ghost counters rows_before / comments_before of "
+    "contracts/C02.py over the written text = m comment lines, the column header, n node lines (the block premises are obligations of the lemma)",
 ]
 
 
@@ -540,8 +643,12 @@ def roundtrip_lemma(tamper=None):
     pick = lambda key, prop: next(c for c in R.alts[key] if c.prop == prop)
     c_write, c_parse = pick(f"{IO}:to_swc", "C01"), pick(f"{IO}:parse_swc", "C02")
     c_reset, c_build = pick("swcgeom/core/swc_utils/normalizer.py:reset_index_", "C18"), pick(f"{TREE}:Tree.from_data_frame", "C01")
+    c_write_any = [c for c in R.alts[f"{IO}:to_swc"] if c.prop == "C01" and 0 in c.loops][0]  # second registration: any number of arbitrary comments
+    c_like = pick(f"{SWC}:SWCLike.to_swc", "C01")
     if tamper is not None:
         tamper(c_write, c_parse, c_reset, c_build)
+        if hasattr(tamper, "more"):
+            tamper.more(c_write_any, c_like)
     names = get_names()
     NC = names.cols()
     E = Verifier(R, "C01")
@@ -557,6 +664,7 @@ def roundtrip_lemma(tamper=None):
     E.assume(z3.ForAll([i], z3.Implies(z3.And(i >= 0, i < n), t["id"].get(i).z == i)))           # WFtree: ids are positions,
     E.assume(t["pid"].get(0).z == -1)                                                              # node 0 is the root,
     E.assume(z3.ForAll([i], z3.Implies(z3.And(i > 0, i < n), z3.And(t["pid"].get(i).z >= 0, t["pid"].get(i).z < n))))  # every other node has a parent
+    E.assume(z3.ForAll([i], z3.Implies(z3.And(i >= 0, i < n), t["type"].get(i).z >= 0)))                                                   # types are non-negative
     E.assume(off.z >= 0)
     wv = dict(get_ndata=Callback("get_ndata", None), g_cols=t, g_n=Sym(n, "int"), given_extra=None, given_comments=None, id_offset=off,
               extra_cols=None, comments=None, names=None)
@@ -593,9 +701,94 @@ def roundtrip_lemma(tamper=None):
     v_, r_ = z3.Int("v"), z3.Real("r")
     E.assume(z3.ForAll([v_], z3.And(C02.INT_OK(STR_OF_INT(v_)), C02.INT_OF(STR_OF_INT(v_)) == v_)))
     E.assume(z3.ForAll([r_], z3.And(C02.FLT_OK(FMT4(r_)), C02.FLT_OF(FMT4(r_)) == ROUND4(r_))))
-    E.assume(z3.ForAll([k], z3.Implies(z3.And(k >= 0, k < n), z3.And(*[C02.GRP(row_tag, WROW(k), c + 1) == _text_of_atom(a) for c, a in enumerate(cells)]))))
-    E.assume(C02.RCNT(f, C02.NL(f)) == n)
-    E.assume(z3.ForAll([k], z3.Implies(z3.And(k >= 0, k < n), C02.LINE(f, C02.RLINE(f, k)) == WROW(k))))
+    # WROW(k) names the text of the k-th node line (definition of the ghost symbol): the cell texts joined by single blanks, then a newline
+    def text_id(line):
+        ids = [STR.lit(E, a) if isinstance(a, str) else _text_of_atom(a) for a in atoms(line)]
+        z = ids[-1]
+        for a in reversed(ids[:-1]):
+            z = STR.CONCAT(a, z)
+        return z
+
+    general = len(E.pc)  # the two general facts below are dropped again once their consequence for the n node lines is proved (fewer hypotheses: sound)
+    E.assume(z3.ForAll([k], z3.Implies(z3.And(k >= 0, k < n), WROW(k) == text_id(written_line(k))), patterns=[WROW(k)]))
+    # reading of C01/regex/written-row-line-is-a-row + the whitespace-token lemma: ANY text of that shape (str() of two naturals, four '.4f' texts,
+    # str() of an integer >= -1) passes the reader's row test and its column groups are the cell texts
+    qv = {c: (z3.Int("q_" + c) if c in INT_COLS else z3.Real("q_" + c)) for c in NC}
+    shape = SStr(tuple(x for jx, c in enumerate(NC) for x in ([" "] if jx else []) + [FmtPiece(Sym(qv[c], "int" if c in INT_COLS else "real"), "str" if c in INT_COLS else ".4f")]) + ("\n",))
+    any_row = text_id(shape)
+    qcells = [a for a in atoms(shape) if not isinstance(a, str)]
+    E.assume(z3.ForAll([qv[c] for c in NC], z3.Implies(z3.And(qv["id"] >= 0, qv["type"] >= 0, qv["pid"] >= -1),
+                                                       z3.And(C02.is_row(0, any_row), *[C02.GRP(row_tag, any_row, c + 1) == _text_of_atom(a) for c, a in enumerate(qcells)])),
+                       patterns=[any_row]))
+    E.prove("lemma/roundtrip/structure/every-node-line-has-the-row-shape:it-passes-the-row-test-and-its-groups-are-the-cell-texts",
+            z3.ForAll([k], z3.Implies(z3.And(k >= 0, k < n), z3.And(C02.is_row(0, WROW(k)), *[C02.GRP(row_tag, WROW(k), c + 1) == _text_of_atom(a) for c, a in enumerate(cells)])),
+                      patterns=[WROW(k)]), "lemma")
+    del E.pc[general:-1]
+    # ---- 2b. the comment lines to_swc writes (its second registration: ANY number of ARBITRARY comments), the column header, and the
+    # structure of the written text: mc comment lines, the header line, n node lines -- which the reader gets back line by line (assumed: io)
+    (clab, comment_yield), = c_write_any.loops[0]["yields"]
+    mc = z3.Int("n_comments_passed")
+    passed = STR.str_list("passed_comments", n=mc)
+    E.assume(mc >= 0)
+    j = z3.Int("j")
+    cy = comment_yield(E, dict(wv, given_comments=passed, comments=passed), [STR.AbsStr(WCOM(j))], Sym(j, "int"))
+    if cy is False:
+        raise KeyError("to_swc's comment clause no longer describes one text per comment: the round-trip lemma cannot be stated")
+    general = len(E.pc)  # as for the node lines: general facts first, their consequence for the m comment lines proved, then the general facts dropped
+    E.assume(z3.ForAll([j], z3.Implies(z3.And(j >= 0, j < mc), to_z3(cy, "bool")), patterns=[WCOM(j)]))
+    whdr = STR.lit(E, "# " + " ".join(NC) + "\n")  # to_swc's clause column-header-line-follows-the-comments
+    # the reading of the abstract vocabulary (LEMMA_ASSUMPTIONS): node lines are rows, '#' lines are comments and no rows, what the reader keeps of a
+    # written comment line is the comment (leading blanks aside), the header line is dropped, [NOT discharged: every written comment line is kept]
+    hdr_txt = z3.StringVal(C02.header_text(names))
+    is_row, is_cm, ctext = (lambda s: C02.is_row(0, s)), (lambda s: C02.is_comment(0, s)), C02.comment_text
+    LSTRIP = z3.Function("str.lstrip", z3.IntSort(), z3.IntSort())
+    qc = z3.Int("q_comment")
+    full_line = STR.as_id(E, SymStr(["# ", STR.AbsStr(LSTRIP(qc)), "\n"]))  # the line of to_swc's comment clause for the comment qc
+    bare_line = STR.lit(E, "#\n")
+    blank = lambda c: z3.Or(C02.IS_BLANK(c), c == 0)
+    # reading of C01/regex/written-comment-line-is-a-comment-and-no-row and C01/lemma/comments/text/*: for ANY comment text
+    E.assume(z3.ForAll([qc], z3.And(is_cm(full_line), LSTRIP(ctext(full_line)) == LSTRIP(qc)), patterns=[full_line]))
+    E.assume(z3.And(is_cm(bare_line), ctext(bare_line) == 0, z3.Not(C02.STARTS(z3.IntVal(0), hdr_txt)), LSTRIP(z3.IntVal(0)) == 0))
+    E.assume(z3.ForAll([qc], z3.Implies(blank(qc), LSTRIP(qc) == 0), patterns=[LSTRIP(qc)]))
+    E.assume(z3.And(is_cm(whdr), C02.STARTS(ctext(whdr), hdr_txt)))
+    E.assume(z3.ForAll([qc], z3.Not(C02.STARTS(ctext(full_line), hdr_txt)), patterns=[full_line]))  # NOT discharged: the known finding (LEMMA_ASSUMPTIONS)
+    E.prove("lemma/roundtrip/structure/every-written-comment-line-is-a-comment-line-whose-kept-text-is-the-comment-leading-blanks-aside(under-the-undischarged-hypothesis)",
+            z3.ForAll([j], z3.Implies(z3.And(j >= 0, j < mc), z3.And(is_cm(WCOM(j)), LSTRIP(ctext(WCOM(j))) == LSTRIP(z3.Select(passed.cols[0], j)),
+                                                                      z3.Not(C02.STARTS(ctext(WCOM(j)), hdr_txt)))), patterns=[WCOM(j)]), "lemma")
+    header_facts = z3.And(is_cm(whdr), C02.STARTS(ctext(whdr), hdr_txt))
+    del E.pc[general:-1]
+    E.assume(header_facts)
+    # the reader gets the written text back line by line (assumed: io)
+    NLf, LINEf = C02.NL(f), (lambda t: C02.LINE(f, t))
+    E.assume(NLf == mc + 1 + n)
+    E.assume(z3.ForAll([j], z3.Implies(z3.And(j >= 0, j < mc), LINEf(j) == WCOM(j)), patterns=[LINEf(j)]))
+    E.assume(LINEf(mc) == whdr)
+    E.assume(z3.ForAll([k], z3.Implies(z3.And(k > mc, k < NLf), LINEf(k) == WROW(k - mc - 1)), patterns=[LINEf(k)]))
+    E.assume(z3.ForAll([k], z3.Not(C02.DECERR(f, k)), patterns=[C02.DECERR(f, k)]))
+    # the reader's ghost counters (definitions of contracts/C02.py) and the counting lemma (lean/Count.lean) over the three blocks
+    C02.ghost_axioms(E, f, 0, names)
+    kept = lambda s: C02.kept_comment(0, names, s)
+    rng = lambda t, lo, hi: z3.And(t >= lo, t < hi)
+    E.prove("lemma/roundtrip/structure/no-line-before-the-first-node-line-is-a-row", z3.ForAll([k], z3.Implies(rng(k, 0, mc + 1), z3.Not(is_row(LINEf(k))))), "lemma")
+    E.prove("lemma/roundtrip/structure/every-node-line-is-a-row", z3.ForAll([k], z3.Implies(rng(k, 0, n), is_row(LINEf(mc + 1 + k)))), "lemma")
+    E.prove("lemma/roundtrip/structure/every-written-comment-line-is-a-kept-comment(under-the-undischarged-hypothesis)",
+            z3.ForAll([k], z3.Implies(rng(k, 0, mc), kept(LINEf(k)))), "lemma")
+    E.prove("lemma/roundtrip/structure/neither-the-column-header-nor-a-node-line-is-a-kept-comment",
+            z3.ForAll([k], z3.Implies(rng(k, mc, mc + 1 + n), z3.Not(kept(LINEf(k))))), "lemma")
+    tt = z3.Int("t")
+    RC, CC = (lambda x: C02.RCNT(f, x)), (lambda x: C02.CCNT(f, x))
+    E.assume(z3.ForAll([tt], z3.Implies(z3.And(tt >= 0, tt <= mc + 1), RC(tt) == 0), patterns=[RC(tt)]))                     # count_skips  (a = 0, block m+1)
+    E.assume(z3.ForAll([tt], z3.Implies(z3.And(tt >= 0, tt <= n), RC(mc + 1 + tt) == tt), patterns=[RC(mc + 1 + tt)]))          # count_counts (a = m+1, block n)
+    E.assume(z3.ForAll([tt], z3.Implies(z3.And(tt >= 0, tt <= mc), CC(tt) == tt), patterns=[CC(tt)]))                          # count_counts (a = 0, block m)
+    E.assume(z3.ForAll([tt], z3.Implies(z3.And(tt >= 0, tt <= n + 1), CC(mc + tt) == mc), patterns=[CC(mc + tt)]))              # count_skips  (a = m, block n+1)
+    E.prove("lemma/roundtrip/structure/the-reader-does-not-raise:every-line-is-a-convertible-row-or-a-comment",
+            z3.ForAll([k], z3.Implies(rng(k, 0, NLf), C02.line_ok(0, f, k))), "lemma")
+    E.prove("lemma/roundtrip/structure/there-are-exactly-n-row-lines", C02.RCNT(f, NLf) == n, "lemma")
+    E.prove("lemma/roundtrip/structure/the-row-lines-are-the-node-lines-in-node-order",
+            z3.ForAll([k], z3.Implies(rng(k, 0, n), C02.LINE(f, C02.RLINE(f, k)) == WROW(k))), "lemma")
+    E.prove("lemma/roundtrip/structure/there-are-exactly-m-kept-comment-lines", C02.CCNT(f, NLf) == mc, "lemma")
+    E.prove("lemma/roundtrip/structure/the-kept-comment-lines-are-the-written-comment-lines-in-order",
+            z3.ForAll([k], z3.Implies(rng(k, 0, mc), C02.LINE(f, C02.CLINE(f, k)) == WCOM(k))), "lemma")
     E.prove("lemma/roundtrip/every-written-row-converts(no-ValueError-from-the-reader)",
             z3.ForAll([k], z3.Implies(z3.And(k >= 0, k < n), C02.conv_ok(0, C02.LINE(f, C02.RLINE(f, k))))), "lemma")
 
@@ -603,8 +796,11 @@ def roundtrip_lemma(tamper=None):
     kinds = {c: ("int" if c in INT_COLS else "real") for c in NC}
     d0 = DFrame({c: SArr.fresh(kinds[c], z3.Int("parsed_rows"), name=f"parsed_{c}") for c in NC}, z3.Int("parsed_rows"))
     E.assume(d0.n >= 0)
-    pv = dict(fname=Opaque(f, {}), names=names, extra_cols=None, encoding="utf-8", result=(d0, PList.fresh("ref", name="comments")))
-    for lab in ("one-table-entry-per-row-line", "every-field-is-the-conversion-of-its-group-in-file-order"):
+    cm_back = PList.fresh("ref", name="comments_read")
+    E.assume(cm_back.n >= 0)
+    pv = dict(fname=Opaque(f, {}), names=names, extra_cols=None, encoding="utf-8", result=(d0, cm_back))
+    for lab in ("one-table-entry-per-row-line", "every-field-is-the-conversion-of-its-group-in-file-order",
+                "comments-are-the-comment-lines-minus-the-column-header-in-order"):
         E.assume(ev(_clause(c_parse, lab), pv, dict(pv)))
 
     # ---- 4. reset_index_'s contract (C18) on the parsed table: precondition proved, postconditions assumed
@@ -637,16 +833,115 @@ def roundtrip_lemma(tamper=None):
     E.prove("lemma/roundtrip/type-is-the-original-type", back["type"].get(node).z == t["type"].get(node).z, "lemma")
     for c in FLT_COLS:
         E.prove(f"lemma/roundtrip/{c}-is-the-original-formatted-with-.4f-and-parsed-back(round4)", back[c].get(node).z == ROUND4(t[c].get(node).z), "lemma")
+    # ---- the comment clause of PROPERTY C01 over parse_swc's comment list (Tree.from_swc hands it to the tree: C02's clause
+    # comments-are-the-comments-read-in-order-in-a-list-of-the-tree's-own): what was passed to to_swc comes back, in order, leading blanks aside
+    cback = lambda x: z3.Select(cm_back.cols[0], x)
+    j = z3.Int("j")
+    E.prove("lemma/roundtrip/comments/as-many-comments-come-back-as-were-passed-to-the-writer", zint(cm_back.n) == mc, "lemma")
+    E.prove("lemma/roundtrip/comments/comment-j-comes-back-in-place-with-the-same-text-leading-blanks-aside",
+            z3.ForAll([j], z3.Implies(z3.And(j >= 0, j < mc), LSTRIP(cback(j)) == LSTRIP(z3.Select(passed.cols[0], j)))), "lemma")
+    # ---- SWCLike.to_swc's contract: what it passes is the optional source header, then the tree's own comments, and nothing else (three source kinds)
+    like_header = _clause(c_like, "comments-passed-are-the-optional-source-header-then-the-tree's-own-comments-and-nothing-else")
+    own = STR.str_list("tree_comments")
+    E.assume(own.n >= 0)
+    for kind, src, own_src, head in (("source-taken-from-the-tree", True, "a.swc", ["source: a.swc", ""]), ("source-unknown", True, "", ["source: Unknown", ""]),
+                                     ("source-given", "lab", "a.swc", ["source: lab", ""]), ("no-source-header", False, "a.swc", [])):
+        keep = len(E.pc)
+        tree = Obj(Tree, dict(source=own_src, comments=own))
+        E.call_log = [("to_swc", dict(comments=passed, get_ndata=None, names=None, extra_cols=None, id_offset=off))]
+        lv = dict(self=tree, source=src, comments=True, own_comments=own)
+        E.assume(like_header(E, lv, dict(lv)))
+        h = len(head)
+        E.prove(f"lemma/roundtrip/comments/{kind}/what-comes-back-is-the-source-header-of-this-export-then-every-comment-of-the-tree-and-nothing-else",
+                z3.And(zint(cm_back.n) == h + zint(own.n), *[LSTRIP(cback(q)) == LSTRIP(STR.lit(E, s)) for q, s in enumerate(head)],
+                       z3.ForAll([j], z3.Implies(z3.And(j >= 0, j < zint(own.n)), LSTRIP(cback(h + j)) == LSTRIP(z3.Select(own.cols[0], j))))), "lemma")
+        del E.pc[keep:]
+    E.call_log = []
     out = [(o.name.split("/lemma/", 1)[1], o.hyps, o.goal) for o in E.obligs]
     out.append(("cover:roundtrip/hypotheses-are-satisfiable", hyps_for_cover, z3.BoolVal(False)))
     return out
+
+
+# ---------------------------------------------------------------------------
+# The comment part of the round trip at the level of TEXTS (z3 sequence theory): one arbitrary comment c without line-break characters,
+# the line to_swc's comment clause says is written for it, and what parse_swc's contract (contracts/C02.py: comment_text / kept_comment)
+# says the reader makes of that line.  str.lstrip / removesuffix / s[n:] / startswith are DEFINED here over z3 strings the way CPython
+# defines them (tools/xcheck_strmodel.py evaluates the definitions against the interpreter); the reader's comment test is the real pattern
+# (read from the repository by contracts/regex_facts.py).
+def comment_text_lemmas(definitions_only=False):
+    import importlib
+
+    from contracts import regex_facts as RF
+    from pyvc import regex_z3 as RZ
+    from swcgeom.core.swc_utils import get_names
+
+    C02 = _import_quietly("contracts.C02")
+    names = get_names()
+    ws, nws = RF.WS(), RF.NWS()
+    S = z3.StringVal
+    no_break = z3.Star(RZ.re_of_ranges(RZ.complement([(10, 10), (13, 13)])))  # no LF, no CR: a comment LINE
+    stripped = z3.Union(RZ.eps(), RZ.cat(nws, RZ.full()))                      # empty, or starting with a non-blank
+
+    def is_lstrip(s, w, u):
+        """u = s.lstrip(): s = w u, w blanks only, u empty or starting with a non-blank (w is the witness)"""
+        return [s == z3.Concat(w, u), z3.InRe(w, z3.Star(ws)), z3.InRe(u, stripped)]
+
+    def removesuffix(s, r, suffix):
+        return [z3.If(z3.SuffixOf(S(suffix), s), s == z3.Concat(r, S(suffix)), r == s)]
+
+    (m_row, p_row, f_row), (m_cm, p_cm, f_cm) = RF.swc_patterns(0)
+    matched = RZ.parse(p_cm, f_cm).fullmatch()  # the texts the comment pattern can match (group 0 of `match` is such a prefix of the line)
+    c, w, u, g0, rest, cm, w2, u2, ex = (z3.String("cl!" + n) for n in "c w u g0 rest cm w2 u2 extras".split())
+    full, bare = z3.Concat(S("# "), u, S("\n")), S("#\n")
+    comment = [z3.InRe(c, no_break)] + is_lstrip(c, w, u)
+
+    tail = z3.String("cl!tail")
+
+    def reader(line):
+        """C02.comment_text: line minus the matched prefix minus one trailing newline; for a line that starts with '#' the matched prefix is
+        the '#' alone (first lemma below)"""
+        return [line == z3.Concat(S("#"), rest)] + removesuffix(rest, cm, "\n")
+
+    if definitions_only:  # for tools/xcheck_strmodel.py: the definitions are evaluated on concrete texts and compared with CPython
+        return dict(is_lstrip=is_lstrip, removesuffix=removesuffix, matched=matched, no_break=no_break, method=m_cm, pattern=p_cm)
+    hdr = S(C02.header_text(names))
+    like_header = z3.PrefixOf(S(C02.header_text(names).lstrip()), u)
+    blank_cm = z3.Concat(S(" "), u)
+    out = [
+        ("a-written-comment-line-ends-with-its-only-line-break", comment, z3.InRe(full, z3.Concat(no_break, z3.Re("\n")))),
+        ("the-prefix-the-reader-strips-from-a-line-that-starts-with-a-hash-is-the-hash-alone",
+         [z3.Concat(S("#"), tail) == z3.Concat(g0, rest), z3.InRe(g0, matched)], g0 == S("#")),
+        ("the-text-the-reader-keeps-is-one-blank-then-the-comment-minus-its-leading-blanks", comment + reader(full), cm == blank_cm),
+        ("the-text-the-reader-keeps-of-a-bare-hash-line-is-empty", reader(bare), cm == S("")),
+        ("read-back-text-leading-blanks-aside-is-the-comment-leading-blanks-aside", [z3.InRe(u, stripped)] + is_lstrip(blank_cm, w2, u2), u2 == u),
+        ("a-blank-comment-minus-its-leading-blanks-is-empty(so-the-bare-hash-line-reads-back-right)", [z3.InRe(c, z3.Star(ws))] + is_lstrip(c, w, u), u == S("")),
+        ("the-reader-keeps-a-written-comment-unless-it-starts-like-the-column-header", [z3.InRe(u, stripped)], z3.PrefixOf(hdr, blank_cm) == like_header),
+        ("the-reader-keeps-the-empty-text-of-a-bare-hash-line", [], z3.Not(z3.PrefixOf(hdr, S("")))),
+        # PROPERTY C01, comment clause: EVERY comment comes back.  Fails on the unchanged library (known finding): counter-text 'id type x y z r pid'
+        ("every-written-comment-is-kept-by-the-reader", [z3.InRe(u, stripped), z3.InRe(u, no_break)], z3.Not(z3.PrefixOf(hdr, blank_cm))),
+        ("the-writer's-column-header-line-is-dropped-by-the-reader(with-any-extra-columns)",
+         reader(z3.Concat(S("# " + " ".join(names.cols())), ex, S("\n"))), z3.PrefixOf(hdr, cm)),  # `ex`: whatever follows the seven names
+    ]
+    return [("comments/text/" + lab, hyps, goal) for lab, hyps, goal in out]
+
+
+def _import_quietly(modname):
+    """contracts/C02.py installs process-wide models when imported: keep them out of this process"""
+    import importlib
+
+    saved = dict(M.EXTRA_MODELS)
+    try:
+        return importlib.import_module(modname)
+    finally:
+        M.EXTRA_MODELS.clear()
+        M.EXTRA_MODELS.update(saved)
 
 
 _lemmas_arith = lemmas
 
 
 def lemmas():  # noqa: F811
-    return _lemmas_arith() + roundtrip_lemma()
+    return _lemmas_arith() + roundtrip_lemma() + comment_text_lemmas()
 
 
 # ===========================================================================
@@ -681,6 +976,18 @@ def register_build(R):
     names = get_names()
     NCOLS = names.cols()
 
+    def _comments(S, how):
+        """the `comments` argument: None (False), two abstract strings (True), or a list of abstract strings of symbolic length ("any"); frozen"""
+        if not how:
+            return None
+        if how == "any":
+            cm = STR.str_list("comments")
+            S.assume(cm.n >= 0)
+        else:
+            cm = PList([STR.fresh_str("comment0"), STR.fresh_str("comment1")])
+        cm.frozen = True
+        return cm
+
     def column_is(arr, n, given, pad, col):
         """arr has exactly n entries; entry i is given[i] where the given column has one, else the padding value"""
         i = z3.Int(fresh_name("i"))
@@ -691,6 +998,13 @@ def register_build(R):
     def stored(E, v, o):
         d = v["self"]
         cm = d.fields.get("comments")
+        if isinstance(o["comments"], PList) and o["comments"].items is None:  # any number of comments: an own list with the same entries in the same order
+            was = o["comments"]
+            if not (isinstance(cm, PList) and cm.items is None and cm is not v["comments"] and cm.uid != was.uid and cm.kinds == was.kinds
+                    and d.fields.get("source") == o["source"] and d.fields.get("names") == names and d.fields.get("types") == get_types()):
+                return False
+            q = z3.Int(fresh_name("q"))
+            return z3.And(zint(cm.n) == zint(was.n), z3.ForAll([q], z3.Implies(z3.And(q >= 0, q < zint(was.n)), z3.Select(cm.cols[0], q) == z3.Select(was.cols[0], q))))
         want_cm = [] if o["comments"] is None else list(o["comments"].items)
         return (isinstance(cm, PList) and cm.items is not None and len(cm.items) == len(want_cm) and all(a is b for a, b in zip(cm.items, want_cm))
                 and (o["comments"] is None or cm is not v["comments"])  # a list of its own: later edits of the tree's comments do not reach the caller's list
@@ -710,10 +1024,7 @@ def register_build(R):
                 a = S.arr(_kind(c), n=m, name=c, dtype=(_np64(c) if widths == 64 else _np32(c)))
                 a.frozen = True
                 cols[c] = a
-            c0, c1 = S.opaque({}, "comment0"), S.opaque({}, "comment1")
-            cm = PList([c0, c1]) if comments else None
-            if cm is not None:
-                cm.frozen = True
+            cm = _comments(S, comments)
             return dict(self=S.obj(Tree), n_nodes=n, source="a.swc", comments=cm, names=None, kwargs=PDict(dict(cols)), g_cols=dict(cols), g_extra=list(extra))
 
         return f
@@ -751,6 +1062,7 @@ def register_build(R):
             "all-columns,64-bit,type-r-pid-of-any-length,no-comments": init_setup(64, free=("type", "r", "pid"), comments=False),
             "no-id-no-pid:default-numbering-and-chain-parents": init_setup(32, extra=(), drop=("id", "pid")),
             "only-id-and-pid:attributes-zero": init_setup(64, extra=(), drop=("type", "x", "y", "z", "r")),
+            "all-columns,64-bit,length-n,any-number-of-comments(as-read-from-a-file)": init_setup(64, extra=(), comments="any"),
         },
         requires=["size-non-negative :: n_nodes >= 0"],
         ensures=[
@@ -772,10 +1084,7 @@ def register_build(R):
                 a = S.arr(_kind(c), n=n, name=c, dtype=_np32(c))
                 a.frozen = True
                 cols[c] = a
-            c0, c1 = S.opaque({}, "comment0"), S.opaque({}, "comment1")
-            cm = PList([c0, c1]) if comments else None
-            if cm is not None:
-                cm.frozen = True
+            cm = _comments(S, comments)
             return dict(self=S.obj(DictSWC), source="a.swc", comments=cm, names=(names if names_given else None), kwargs=PDict(dict(cols)), g_cols=dict(cols))
 
         return f
@@ -788,7 +1097,8 @@ def register_build(R):
     R.add(
         f"{SWC}:DictSWC.__init__",
         prop="C01",
-        variants={f"comments-{'given' if c else 'omitted'},names-{'given' if nm else 'omitted'}": dict_setup(c, nm) for c in (True, False) for nm in (True, False)},
+        variants={**{f"comments-{'given' if c else 'omitted'},names-{'given' if nm else 'omitted'}": dict_setup(c, nm) for c in (True, False) for nm in (True, False)},
+                  "any-number-of-comments,names-omitted": dict_setup("any", False)},
         ensures=[
             ("one-column-per-keyword-in-the-given-order-holding-the-very-array-given", dict_cols),
             ("source-names-types-stored-comments-copied-into-an-own-list", stored),
@@ -806,10 +1116,7 @@ def register_build(R):
                 a.dtype = _np64(c)  # what pandas makes of the parsed Python ints / floats
                 a.frozen = True
             df.frozen = True
-            c0, c1 = S.opaque({}, "comment0"), S.opaque({}, "comment1")
-            cm = PList([c0, c1]) if comments else None
-            if cm is not None:
-                cm.frozen = True
+            cm = _comments(S, comments)
             return dict(df=df, source="a.swc", comments=cm, names=None, g_extra=list(extra))
 
         return f
@@ -861,6 +1168,7 @@ def register_build(R):
             "seven-columns,comments": frame_setup(()),
             "seven-columns,no-comments": frame_setup((), comments=False),
             "seven-columns+one-requested-extra-column": frame_setup(("e",)),
+            "seven-columns,any-number-of-comments(as-read-from-a-file)": frame_setup((), comments="any"),
         },
         ensures=[
             ("a-Tree-is-returned", frame_is_tree),
